@@ -42,6 +42,13 @@ def vec_list(attr, n):
     return [[fl(c) for c in attr[i]] for i in range(n)]
 
 
+def pn(p):
+    """the `persistent` slot of a call: False | True | "a custom attribute name" (persistent, stored under that name)"""
+    if isinstance(p, str):
+        return {"persistent": True, "name": p}
+    return {"persistent": bool(p)}
+
+
 def mk_attr(container, name, values, dense):
     a = container.create_attribute(name, float, dense=bool(dense))
     for i, v in enumerate(values):
@@ -68,34 +75,41 @@ def run_call(mesh, call, state):
             return {"angles": [[fl(ang[c]), math.cos(fl(ang[c])), math.sin(fl(ang[c]))] for c in range(len(ref.face_corners))]}
         return {"angles": None}
     if nm == "edge_length":
-        return scal_list(A.edge_length(mesh, persistent=call[1], dense=call[2]), ne)
+        return scal_list(A.edge_length(mesh, dense=call[2], **pn(call[1])), ne)
     if nm == "edge_middle":
-        return vec_list(A.edge_middle_point(mesh, persistent=call[1], dense=call[2]), ne)
+        return vec_list(A.edge_middle_point(mesh, dense=call[2], **pn(call[1])), ne)
     if nm == "face_area":
-        return scal_list(A.face_area(mesh, persistent=call[1], dense=call[2]), nf)
+        return scal_list(A.face_area(mesh, dense=call[2], **pn(call[1])), nf)
     if nm == "face_normals":
-        return vec_list(A.face_normals(mesh, persistent=call[1], dense=call[2]), nf)
+        return vec_list(A.face_normals(mesh, dense=call[2], **pn(call[1])), nf)
     if nm == "face_bary":
-        return vec_list(A.face_barycenter(mesh, persistent=call[1], dense=call[2]), nf)
+        return vec_list(A.face_barycenter(mesh, dense=call[2], **pn(call[1])), nf)
     if nm == "circum":
-        return vec_list(A.face_circumcenter(mesh, persistent=call[1], dense=call[2]), nf)
+        return vec_list(A.face_circumcenter(mesh, dense=call[2], **pn(call[1])), nf)
     if nm == "angles":
-        return scal_list(A.corner_angles(mesh, persistent=call[1], dense=call[2]), ncorn)
+        return scal_list(A.corner_angles(mesh, dense=call[2], **pn(call[1])), ncorn)
     if nm == "cot":
-        return scal_list(A.cotangent(mesh, persistent=call[1], dense=call[2]), ncorn)
+        return scal_list(A.cotangent(mesh, dense=call[2], **pn(call[1])), ncorn)
     if nm == "cw":
-        return scal_list(A.cotan_weights(mesh, persistent=call[1], dense=call[2]), ne)
+        return scal_list(A.cotan_weights(mesh, dense=call[2], **pn(call[1])), ne)
     if nm == "degree":
-        d = A.degree(mesh, persistent=call[1], dense=call[2])
+        d = A.degree(mesh, dense=call[2], **pn(call[1]))
         return [int(d[i]) for i in range(nv)]
     if nm == "defects":
-        return scal_list(A.angle_defects(mesh, zero_border=call[1], persistent=call[2], dense=call[3]), nv)
+        return scal_list(A.angle_defects(mesh, zero_border=call[1], dense=call[3], **pn(call[2])), nv)
     if nm == "vnormals":
-        return vec_list(A.vertex_normals(mesh, interpolation=call[1], persistent=call[2], dense=call[3]), nv)
+        return vec_list(A.vertex_normals(mesh, interpolation=call[1], dense=call[3], **pn(call[2])), nv)
+    if nm == "vnormals_c":
+        # [name, weight, custom face normals (one 3-vector per face), persistent, dense]: the caller's own face normals
+        state["k"] = state.get("k", 0) + 1
+        fn = mesh.faces.create_attribute("c07_fn_%d" % state["k"], float, 3, dense=bool(state["k"] % 2))
+        for i, vec in enumerate(call[2]):
+            fn[i] = np.array(vec, dtype=float)
+        return vec_list(A.vertex_normals(mesh, interpolation=call[1], dense=call[4], custom_fnormals=fn, **pn(call[3])), nv)
     if nm == "cell_volume":
-        return scal_list(A.cell_volume(mesh, persistent=call[1], dense=call[2]), ncell)
+        return scal_list(A.cell_volume(mesh, dense=call[2], **pn(call[1])), ncell)
     if nm == "cell_bary":
-        return vec_list(A.cell_barycenter(mesh, persistent=call[1], dense=call[2]), ncell)
+        return vec_list(A.cell_barycenter(mesh, dense=call[2], **pn(call[1])), ncell)
     if nm == "euler":
         return int(A.euler_characteristic(mesh))
     if nm == "mean_edge":
@@ -112,6 +126,8 @@ def run_call(mesh, call, state):
     #      preload: None (fresh output attribute) | list of values already stored in the output attribute
     if nm in ("v2f", "f2v", "sv2c", "sf2c", "c2v", "c2f"):
         w, vals, din, dout, pre = call[1], call[2], call[3], call[4], call[5]
+        if len(call) > 6 and call[6]:
+            w = call[6]          # the same weight in another accepted spelling ("Uniform", "AREA", ...)
         state["k"] = state.get("k", 0) + 1
         k = state["k"]
         src_c, dst_c, n_out = {
